@@ -1,7 +1,7 @@
 (* Props/C01.v — property C01: garbled evaluation equals plain evaluation.
    Only statements closed by [exact], each followed by Print Assumptions. *)
 From Coq Require Import NArith ZArith List Bool.
-From Mpc Require Import Gen.Consts Base.Label Base.Aes Circuit.Circuit Circuit.Garble Circuit.GarbleProof Circuit.RunC01.
+From Mpc Require Import Gen.Consts Base.Label Base.Aes Circuit.Circuit Circuit.Garble Circuit.GarbleProof Circuit.ComputeIO Circuit.ComputeIOProof Circuit.RunC01.
 Import ListNotations.
 From Mpc Require Gen.State Base.StateExpected Base.StateCheck Base.StatePkgs.
 
@@ -56,6 +56,70 @@ Theorem C01_input_overwrite_refuted :
                   overwrite_circuit [true; true] = Some [None].
 Proof. exact input_overwrite_refuted. Qed.
 Print Assumptions C01_input_overwrite_refuted.
+
+(* Circuit.Compute over []*big.Int (circuit/computer.go), model Circuit/ComputeIO.v.
+   For every circuit (no well-formedness needed), every declared input layout (any number
+   of arguments, any widths incl. 0 and widths that are no multiple of 8 or 64, compound
+   arguments replaced by their members), every declared output layout that fits the
+   circuit, and every list of argument values in Z (negative, narrower or wider than
+   the declared width) with one value per flattened argument: Compute succeeds and its
+   k-th result is the unsigned number formed by the k-th field of the plain evaluation
+   of the flattened bits (bit i of argument k = big.Int.Bit(i)). *)
+Theorem C01_compute_io_eq_eval_plain :
+  forall (c : circuit) (ins outs : list ioarg) (vals : list Z),
+    layout_ok c ins outs -> length vals = length (flat_args ins) ->
+    compute_io c ins outs vals
+    = COk (pack_bits (map iobits outs) (eval_plain c (flatten_inputs (flat_args ins) vals))).
+Proof. exact compute_io_eq_eval_plain. Qed.
+Print Assumptions C01_compute_io_eq_eval_plain.
+
+(* For every circuit, layout and argument values (no hypothesis on the layout): only
+   value mod 2^width of each argument matters, i.e. a negative value acts as its two's
+   complement, an over-wide value is truncated, a narrow one zero-extended. *)
+Theorem C01_compute_io_vals_mod :
+  forall c ins outs vals,
+    length vals = length (flat_args ins) ->
+    compute_io c ins outs (reduce_vals (flat_args ins) vals) = compute_io c ins outs vals.
+Proof. exact compute_io_vals_mod. Qed.
+Print Assumptions C01_compute_io_vals_mod.
+
+(* Same quantifiers as C01_compute_io_eq_eval_plain: there is one result per declared
+   output, every result r satisfies 0 <= r < 2^width, and reading the results back bit
+   by bit (the reader of the input side) returns exactly the plain output bits: the
+   packing loses nothing and adds nothing. *)
+Theorem C01_compute_io_results_roundtrip :
+  forall c ins outs vals,
+    layout_ok c ins outs -> length vals = length (flat_args ins) ->
+    exists rs, compute_io c ins outs vals = COk rs /\
+      length rs = length outs /\
+      Forall2 (fun n r => (0 <= r < 2 ^ Z.of_nat n)%Z) (map iobits outs) rs /\
+      flatten_inputs (map iobits outs) rs = eval_plain c (flatten_inputs (flat_args ins) vals).
+Proof. exact compute_io_results_roundtrip. Qed.
+Print Assumptions C01_compute_io_results_roundtrip.
+
+(* For every circuit, layout and value list of the wrong length: the explicit
+   "invalid inputs: got, expected" error with exactly these two numbers. *)
+Theorem C01_compute_io_arg_count :
+  forall c ins outs vals, length vals <> length (flat_args ins) ->
+    compute_io c ins outs vals = CErrArgs (length vals) (length (flat_args ins)).
+Proof. exact compute_io_arg_count. Qed.
+Print Assumptions C01_compute_io_arg_count.
+
+(* The main claim at the level of argument VALUES: for every block function, random
+   stream, scratch content, wf circuit, fitting layout and argument values, garbled
+   evaluation on the labels that encode the flattened values succeeds, every output
+   label decodes, and the decoded bits packed per declared output are the numbers
+   Circuit.Compute returns for those values. *)
+Theorem C01_garbled_eq_compute_io :
+  forall (pi : N -> N) (rnd : nat -> N) (scratch : list wire) c ins outs vals,
+    wf c = true -> layout_ok c ins outs -> length vals = length (flat_args ins) ->
+    let x := flatten_inputs (flat_args ins) vals in
+    let g := garble pi rnd scratch c in
+    exists ew bs, geval pi c (encode g c x) (gTables g) = Some ew /\
+      map (fun o => decode (nth o (gWires g) w0) (nth o ew 0%N)) (output_wires c) = map Some bs /\
+      compute_io c ins outs vals = COk (pack_bits (map iobits outs) bs).
+Proof. exact garbled_eq_compute_io. Qed.
+Print Assumptions C01_garbled_eq_compute_io.
 
 (* STATE INVENTORY (finite obligation on the model regenerated from the source, checked by
    computation).  The struct fields and package-level variables of the Go packages this
